@@ -1,9 +1,9 @@
 (* C09 on the fragment of Spec/Fragment.v: for every tree (any size, any depth) the Markdown
    renderer, applied to the token tree the parser produces under the Markdown renderer's own
    token set, writes back exactly the text the tree was spelled as - the round trip is the
-   identity on these documents.  The two side conditions beyond well-formedness (a fenced
-   block is not empty, code lines begin - after spaces - with a character that is not white
-   space) are exactly two of the recorded round-trip findings. *)
+   identity on these documents, with no side condition (two earlier ones - a fenced block
+   is not empty, code lines do not begin with white space - were defects of the renderer,
+   repaired by the fix: commits 50fc060 and 1070095). *)
 From Coq Require Import ZArith List Bool Lia.
 From Mistletoe Require Import Base.Sx Base.PyStr Base.PyText Gen.GenTables Gen.GenConfig Model.Tree Model.CoreTokens Model.Block Model.Build
      Model.MarkdownRenderer Model.Parser Proofs.PlainProse Proofs.Prose Proofs.ProseLines Proofs.ListLaw Proofs.FenceLaw Spec.Fragment Proofs.FragmentP Proofs.FragmentDoc Proofs.FragmentHtml.
@@ -20,43 +20,41 @@ Proof.
   rewrite forallb_forall in E. specialize (E c Hin). rewrite is_space_same in E. congruence.
 Qed.
 
-(* lines whose every non-blank member holds a character that is not white space *)
-Definition solid (l : sline) : Prop := match l with SBlank => True | SLine _ c _ => is_space_c c = false end.
-
-Lemma isspace_bare l p : solid l -> l <> SBlank -> isspace (p ++ bare l) = false.
-Proof.
-  intros Hs Hn. destruct l as [|k c body]; [contradiction|]. cbn [bare solid] in *.
-  apply (isspace_false_with _ c); [|exact Hs]. apply in_or_app. right. apply in_or_app. right. left. reflexivity.
-Qed.
-
-(* ---- prefix_lines ---- *)
+(* ---- prefix_lines: a non-empty line keeps its prefix and its own characters; an empty line keeps a prefix that
+        is not white space only ---- *)
 Lemma isspace_spaces n : (0 < n)%nat -> isspace (repeat 32 n) = true.
 Proof. intros H. destruct n; [lia|]. unfold isspace. cbn [repeat]. apply forallb_forall. intros x Hx. apply (repeat_spec (S n) 32 x) in Hx. subst x. reflexivity. Qed.
 
-Lemma prefix_from_same b p lines :
-  prefix_from b p p lines = map (fun l => if isspace (p ++ l) then [] else p ++ l) lines.
+Lemma bare_nonempty l : l <> SBlank -> nonempty (bare l) = true.
+Proof. destruct l as [|k c body]; [contradiction|]. intros _. cbn [bare]. destruct (repeat 32 k); reflexivity. Qed.
+
+Lemma prefix_from_quote b ls : prefix_from b ($"> ") ($"> ") (map bare ls) = map bare (map quote_s ls).
 Proof.
-  revert b. induction lines as [|l r IH]; intros b; [reflexivity|]. cbn [prefix_from map]. rewrite IH.
-  destruct b; reflexivity.
+  revert b. induction ls as [|l r IH]; intros b; [reflexivity|].
+  assert (Sp : isspace ($"> " ++ bare l) = false) by (apply (isspace_false_with _ 62); [left; reflexivity|vm_compute; reflexivity]).
+  destruct b; cbn [map prefix_from]; rewrite (IH false), Sp, orb_true_r; f_equal; destruct l as [|k c body]; reflexivity.
 Qed.
 
 Lemma prefix_quote ls : prefix_lines (map bare ls) $"> " None = map bare (map quote_s ls).
+Proof. apply prefix_from_quote. Qed.
+
+Lemma prefix_from_false_embed p w ls : (0 < w)%nat ->
+  prefix_from false p (repeat 32 w) (map bare ls) = map bare (map (embed_s w) ls).
 Proof.
-  unfold prefix_lines. rewrite prefix_from_same, !map_map. apply map_ext. intros l.
-  assert (isspace ($"> " ++ bare l) = false) as ->.
-  { apply (isspace_false_with _ 62); [left; reflexivity|vm_compute; reflexivity]. }
-  destruct l as [|k c body]; reflexivity.
+  intros Hw. induction ls as [|l r IH]; [reflexivity|]. cbn [map prefix_from]. rewrite IH. f_equal.
+  destruct l as [|k c body].
+  - cbn [bare embed_s nonempty orb]. rewrite app_nil_r, isspace_spaces by exact Hw. reflexivity.
+  - rewrite bare_nonempty by discriminate. cbn [orb bare embed_s]. rewrite repeat_app, <- app_assoc. reflexivity.
 Qed.
 
-Lemma prefix_from_embed w ls : (0 < w)%nat -> Forall solid ls ->
-  prefix_from false [] (repeat 32 w) (map bare ls) = map bare (map (embed_s w) ls).
+Lemma prefix_from_none b ls : prefix_from b [] [] ls = ls.
 Proof.
-  intros Hw H. induction H as [|l r Hl _ IH]; [reflexivity|]. cbn [map prefix_from]. rewrite IH. f_equal.
-  destruct l as [|k c body].
-  - cbn [bare embed_s]. rewrite app_nil_r, isspace_spaces by exact Hw. reflexivity.
-  - assert (isspace (repeat 32 w ++ bare (SLine k c body)) = false) as -> by (apply isspace_bare; [exact Hl|discriminate]).
-    cbn [bare embed_s]. rewrite repeat_app, <- app_assoc. reflexivity.
+  revert b. induction ls as [|l r IH]; intros b; [reflexivity|].
+  destruct b; cbn [prefix_from app]; rewrite (IH false); destruct l; reflexivity.
 Qed.
+
+Lemma prefix_none ls : prefix_lines ls [] None = ls.
+Proof. apply prefix_from_none. Qed.
 
 (* ---- content of a fence ---- *)
 Lemma split_nl_aux_line cur l rest : mem 10 l = false ->
@@ -99,15 +97,6 @@ Proof.
   apply G; assumption.
 Qed.
 
-(* ---- what is required beyond wf_b for the round trip to be the identity ---- *)
-Fixpoint rt_ok (t : ftree) : bool :=
-  match t with
-  | FPara _ _ _ | FHead _ _ _ => true
-  | FFence _ _ content =>
-    (match content with [] => false | _ => true end) &&
-    forallb (fun l => match l with SBlank => true | SLine _ c _ => negb (is_space_c c) end) content
-  | FQuote ts | FItem _ _ ts => forallb rt_ok ts
-  end.
 
 Definition md_lines (t : ftree) : list str := block_lines (mkMopts false) None (tok_of true t).
 
@@ -126,39 +115,17 @@ Proof.
   induction r as [|y r IH]; [reflexivity|]. cbn [flat_map map]. rewrite map_app, IH. reflexivity.
 Qed.
 
-(* every line of a spelled tree is solid, provided the code lines are *)
-Lemma solid_quote l : solid (quote_s l).
-Proof. destruct l; cbn; vm_compute; reflexivity. Qed.
-
-Lemma prefix_from_false_embed p w ls : (0 < w)%nat -> Forall solid ls ->
-  prefix_from false p (repeat 32 w) (map bare ls) = map bare (map (embed_s w) ls).
-Proof.
-  intros Hw H. induction H as [|l r Hl _ IH]; [reflexivity|]. cbn [map prefix_from]. rewrite IH. f_equal.
-  destruct l as [|k c body].
-  - cbn [bare embed_s]. rewrite app_nil_r, isspace_spaces by exact Hw. reflexivity.
-  - assert (isspace (repeat 32 w ++ bare (SLine k c body)) = false) as -> by (apply isspace_bare; [exact Hl|discriminate]).
-    cbn [bare embed_s]. rewrite repeat_app, <- app_assoc. reflexivity.
-Qed.
-
-Lemma solid_join ls : Forall (Forall solid) ls -> Forall solid (join_blank ls).
-Proof.
-  intros H. destruct ls as [|x r]; [constructor|]. inversion H; subst. unfold join_blank. apply Forall_app. split; [assumption|].
-  clear -H3. induction H3 as [|y r Hy _ IH]; [constructor|]. cbn [flat_map]. constructor; [exact I|]. apply Forall_app. split; assumption.
-Qed.
 
 Section RT.
   Let o := mkMopts false.
 
-  Definition RT (t : ftree) : Prop := md_lines t = map bare (spell t) /\ Forall solid (spell t).
+  Definition RT (t : ftree) : Prop := md_lines t = map bare (spell t).
 
   Lemma rt_seq ts : Forall RT ts -> ts <> [] ->
-    flat_map (block_lines o None) (tok_seq true ts) = map bare (join_blank (map spell ts)) /\ Forall solid (join_blank (map spell ts)).
+    flat_map (block_lines o None) (tok_seq true ts) = map bare (join_blank (map spell ts)).
   Proof.
-    intros H Hne. split.
-    - rewrite flat_map_tok_seq, bare_join. destruct ts as [|t r]; [contradiction|]. inversion H as [|? ? [E1 _] Hr]; subst.
-      cbn [map]. rewrite E1. f_equal. clear -Hr. induction Hr as [|y r [Ey _] _ IH]; [reflexivity|]. cbn [flat_map map]. rewrite Ey, IH. reflexivity.
-    - apply solid_join. apply Forall_forall. intros x Hx. apply in_map_iff in Hx as (t & <- & Ht).
-      rewrite Forall_forall in H. apply (H t Ht).
+    intros H Hne. rewrite flat_map_tok_seq, bare_join. destruct ts as [|t r]; [contradiction|]. inversion H as [|? ? E1 Hr]; subst.
+    cbn [map]. rewrite E1. f_equal. clear -Hr. induction Hr as [|y r Ey _ IH]; [reflexivity|]. cbn [flat_map map]. rewrite Ey, IH. reflexivity.
   Qed.
 
   Lemma plain_from_prose : forall ls cur, Forall (fun l => mem 10 l = false /\ l <> []) ls -> ls <> [] ->
@@ -174,6 +141,7 @@ Section RT.
       rewrite (IH [] Hr ltac:(discriminate)). reflexivity.
   Qed.
 
+
   Lemma rt_para c body more : wf_b (FPara c body more) = true -> RT (FPara c body more).
   Proof.
     intros Hw. destruct (wf_para c body more Hw) as (PL & _ & Hc).
@@ -181,90 +149,69 @@ Section RT.
     assert (Eb : map bare (spell (FPara c body more)) = (c :: body) :: more).
     { cbn [spell map bare repeat app]. f_equal. rewrite map_map. rewrite <- (map_id more) at 2. apply map_ext_in. intros l Hl.
       rewrite Forall_forall in Hc. destruct (Hc l Hl) as [(_ & _ & Hne & _) _]. destruct l; [contradiction|reflexivity]. }
-    split.
-    * unfold md_lines. rewrite Eb. cbn [tok_of block_lines]. unfold span_to_lines. cbn [fragments_to_lines].
-      rewrite plain_from_prose; [reflexivity| |discriminate].
-      apply Forall_forall. intros l Hl. rewrite Forall_forall in Hall. destruct (Hall l Hl) as (Hp & _ & Hne & _). split; [apply plain_no; [reflexivity|exact Hp]|exact Hne].
-    * cbn [spell]. constructor.
-      + cbn [solid]. destruct PL as (_ & Hf1 & _ & _). apply plain_first_not_space. exact Hf1.
-      + apply Forall_forall. intros x Hx. apply in_map_iff in Hx as (l & <- & Hl). cbn [solid]. rewrite Forall_forall in Hc.
-        destruct (Hc l Hl) as [(_ & Hf & _ & _) _]. apply plain_first_not_space. exact Hf.
+    unfold RT, md_lines. rewrite Eb. cbn [tok_of block_lines]. unfold span_to_lines. cbn [fragments_to_lines].
+    rewrite plain_from_prose; [reflexivity| |discriminate].
+    apply Forall_forall. intros l Hl. rewrite Forall_forall in Hall. destruct (Hall l Hl) as (Hp & _ & Hne & _). split; [apply plain_no; [reflexivity|exact Hp]|exact Hne].
   Qed.
 
   Lemma rt_head lv c body : wf_b (FHead lv c body) = true -> RT (FHead lv c body).
   Proof.
-    intros Hw. destruct (head_wf lv c body Hw) as [((H1 & _) & H10 & _) Hp]. split.
-    * unfold md_lines. cbn [tok_of block_lines spell map bare repeat app]. unfold span_to_lines. cbn [flat_map frags app fragments_to_lines plain_from ftext Fw].
-      rewrite H10. cbn [plain_from app nonempty first_or_empty]. rewrite Nat2Z.id. destruct lv as [|k]; [lia|]. cbn [repeat app nonempty]. replace (S k - 1)%nat with k by lia.
-      rewrite app_nil_r. reflexivity.
-    * repeat constructor.
+    intros Hw. destruct (head_wf lv c body Hw) as [((H1 & _) & H10 & _) Hp].
+    unfold RT, md_lines. cbn [tok_of block_lines spell map bare repeat app]. unfold span_to_lines. cbn [flat_map frags app fragments_to_lines plain_from ftext Fw].
+    rewrite H10. cbn [plain_from app nonempty first_or_empty]. rewrite Nat2Z.id. destruct lv as [|k]; [lia|]. cbn [repeat app nonempty]. replace (S k - 1)%nat with k by lia.
+    rewrite app_nil_r. reflexivity.
   Qed.
 
-  Lemma rt_fence ch n content : wf_b (FFence ch n content) = true -> rt_ok (FFence ch n content) = true -> RT (FFence ch n content).
+  Lemma rt_fence ch n content : wf_b (FFence ch n content) = true -> RT (FFence ch n content).
   Proof.
-    intros Hw Hr.
-    destruct (fence_wf ch n content Hw) as ((Hch & Hn) & Hok & _).
-    cbn [rt_ok] in Hr. apply andb_true_iff in Hr as [Hne Hsol].
-    assert (Sol : Forall solid content).
-    { apply Forall_forall. intros l Hl. rewrite forallb_forall in Hsol. specialize (Hsol l Hl). destruct l; [exact I|]. apply negb_true_iff in Hsol. exact Hsol. }
+    intros Hw. destruct (fence_wf ch n content Hw) as ((Hch & Hn) & Hok & _).
     assert (Fe : ch :: repeat ch (n - 1) = repeat ch n) by (destruct n; [lia|]; cbn [repeat]; replace (S n - 1)%nat with n by lia; reflexivity).
-    split.
-    * unfold md_lines. cbn [tok_of block_lines f_indentation f_delimiter f_info f_content spaces Z.to_nat repeat app spell map bare].
-      rewrite content_lines_of; [|destruct content; [discriminate|discriminate]|exact Hok].
-      unfold prefix_lines. rewrite prefix_from_same. rewrite map_map.
-      rewrite map_app. cbn [map bare repeat app]. rewrite Fe, app_nil_r. f_equal. f_equal.
-      apply map_ext_in. intros l Hl. rewrite Forall_forall in Sol. specialize (Sol l Hl). cbn [app].
-      destruct l as [|k c body]; [reflexivity|]. pose proof (isspace_bare (SLine k c body) [] Sol ltac:(discriminate)) as I0. cbn [app] in I0. rewrite I0. reflexivity.
-    * cbn [spell]. constructor; [cbn [solid]; destruct Hch as [->| ->]; vm_compute; reflexivity|].
-      apply Forall_app. split; [exact Sol|]. repeat constructor. cbn [solid]. destruct Hch as [->| ->]; vm_compute; reflexivity.
+    unfold RT, md_lines. cbn [tok_of block_lines f_indentation f_delimiter f_info f_content spaces Z.to_nat repeat app spell map bare].
+    destruct content as [|l0 lr].
+    - cbn [map concat nonempty app bare repeat]. rewrite Fe, app_nil_r. reflexivity.
+    - assert (Ne : nonempty (concat (map render_line (l0 :: lr))) = true).
+      { cbn [map concat]. rewrite render_bare. destruct (bare l0); reflexivity. }
+      rewrite Ne. rewrite content_lines_of by (try discriminate; exact Hok). rewrite prefix_none.
+      rewrite map_app. cbn [map bare repeat app]. rewrite Fe, app_nil_r. reflexivity.
   Qed.
 
-  Lemma rt_all : forall f t, (depth t <= f)%nat -> wf_b t = true -> rt_ok t = true -> RT t.
+  Lemma rt_all : forall f t, (depth t <= f)%nat -> wf_b t = true -> RT t.
   Proof.
-    induction f as [|f IH]; intros t Hd Hw Hr.
+    induction f as [|f IH]; intros t Hd Hw.
     - destruct t as [c body more|ch n content|ts|mk pad ts|lv hc hb]; [apply rt_para; exact Hw|apply rt_fence; assumption|cbn [depth] in Hd; lia|cbn [depth] in Hd; lia|apply rt_head; exact Hw].
     - destruct t as [c body more|ch n content|ts|mk pad ts|lv hc hb]; [apply rt_para; exact Hw|apply rt_fence; assumption| | |apply rt_head; exact Hw].
       + (* quote *)
-        cbn [wf_b] in Hw. repeat rewrite andb_true_iff in Hw. destruct Hw as [[Hs Hall] Hg]. cbn [rt_ok] in Hr.
+        cbn [wf_b] in Hw. repeat rewrite andb_true_iff in Hw. destruct Hw as [[Hs Hall] Hg].
         assert (Hch : Forall RT ts).
-        { apply Forall_forall. intros x Hx. rewrite forallb_forall in Hall, Hr. apply IH; [eapply depth_children; eassumption|apply Hall; exact Hx|apply Hr; exact Hx]. }
+        { apply Forall_forall. intros x Hx. rewrite forallb_forall in Hall. apply IH; [eapply depth_children; eassumption|apply Hall; exact Hx]. }
         assert (Hne : ts <> []) by (destruct ts; [discriminate|discriminate]).
-        destruct (rt_seq ts Hch Hne) as [E Sl]. unfold o in E. split.
-        * unfold md_lines. cbn [tok_of block_lines sub_opt spell]. change ((fix seq (ts0 : list ftree) : list tok := match ts0 with [] => [] | t :: r => tok_of true t :: match r with [] => [] | _ :: _ => blank_tok true ++ seq r end end) ts) with (tok_seq true ts).
-          rewrite E. apply prefix_quote.
-        * cbn [spell]. apply Forall_forall. intros x Hx. apply in_map_iff in Hx as (y & <- & _). apply solid_quote.
+        pose proof (rt_seq ts Hch Hne) as E. unfold o in E.
+        unfold RT, md_lines. cbn [tok_of block_lines sub_opt spell]. change ((fix seq (ts0 : list ftree) : list tok := match ts0 with [] => [] | t :: r => tok_of true t :: match r with [] => [] | _ :: _ => blank_tok true ++ seq r end end) ts) with (tok_seq true ts).
+        rewrite E. apply prefix_quote.
       + (* item *)
-        cbn [wf_b] in Hw. repeat rewrite andb_true_iff in Hw. destruct Hw as [[[[[[Hmk Hp1] Hp4] Hs] Hall] Hg] Hth]. cbn [rt_ok] in Hr.
+        cbn [wf_b] in Hw. repeat rewrite andb_true_iff in Hw. destruct Hw as [[[[[[Hmk Hp1] Hp4] Hs] Hall] Hg] Hth].
         apply marker_ok_reflect in Hmk. apply Nat.leb_le in Hp1, Hp4.
         assert (Hch : Forall RT ts).
-        { apply Forall_forall. intros x Hx. rewrite forallb_forall in Hall, Hr. apply IH; [eapply depth_children; eassumption|apply Hall; exact Hx|apply Hr; exact Hx]. }
+        { apply Forall_forall. intros x Hx. rewrite forallb_forall in Hall. apply IH; [eapply depth_children; eassumption|apply Hall; exact Hx]. }
         assert (Hne : ts <> []) by (destruct ts; [discriminate|discriminate]).
-        destruct (rt_seq ts Hch Hne) as [E Sl]. unfold o in E.
+        pose proof (rt_seq ts Hch Hne) as E. unfold o in E.
         destruct (good_lines _ Hg) as (c0 & body0 & rest & El & Hc0 & _ & _ & _ & _ & _).
         destruct (marker_first mk Hmk) as (m0 & mr & Em & Hm0).
         assert (Sm0 : is_space_c m0 = false).
         { unfold mfirst_ok in Hm0. repeat rewrite andb_true_iff in Hm0. destruct Hm0 as [[[[_ H3] _] _] _]. apply negb_true_iff in H3. exact H3. }
-        split.
-        * unfold md_lines. cbn [tok_of block_lines flat_map sub_opt spell normalize_ws i_prepend i_indentation i_leader].
-          change ((fix seq (ts0 : list ftree) : list tok := match ts0 with [] => [] | t :: r => tok_of true t :: match r with [] => [] | _ :: _ => blank_tok true ++ seq r end end) ts) with (tok_seq true ts).
-          rewrite app_nil_r. rewrite E, El. cbn [map or_blank bare repeat app].
-          unfold item_lines. rewrite Em.
-          set (w := (length (m0 :: mr) + pad)%nat).
-          assert (Ew : spaces (Z.of_nat w) = repeat 32 w) by (unfold spaces; rewrite Nat2Z.id; reflexivity).
-          assert (Ep : spaces (Z.of_nat w - len (m0 :: mr) - 0) = repeat 32 pad).
-          { unfold spaces, len, w. f_equal. lia. }
-          unfold prefix_lines. rewrite Ew. destruct w as [|w'] eqn:Ew0; [unfold w in Ew0; cbn [length] in Ew0; lia|].
-          cbn [repeat prefix_from]. change (32 :: repeat 32 w') with (repeat 32 (S w')).
-          rewrite El in Sl. inversion Sl as [|? ? Hs0 Srest]; subst.
-          rewrite (prefix_from_false_embed _ (S w') rest (Nat.lt_0_succ _) Srest).
-          rewrite Ep. cbn [spaces Z.to_nat repeat app map bare].
-          assert (Nsp : isspace ((m0 :: mr) ++ repeat 32 pad ++ c0 :: body0) = false).
-          { apply (isspace_false_with _ m0); [left; reflexivity|exact Sm0]. }
-          rewrite <- app_assoc. cbn [app] in Nsp |- *. rewrite Nsp. reflexivity.
-        * cbn [spell]. rewrite El. unfold item_lines. rewrite Em. constructor; [cbn [solid]; exact Sm0|].
-          rewrite El in Sl. inversion Sl; subst.
-          apply Forall_forall. intros x Hx. apply in_map_iff in Hx as (y & <- & Hy).
-          rewrite Forall_forall in H2. specialize (H2 y Hy). destruct y; [exact I|exact H2].
+        unfold RT, md_lines. cbn [tok_of block_lines flat_map sub_opt spell normalize_ws i_prepend i_indentation i_leader].
+        change ((fix seq (ts0 : list ftree) : list tok := match ts0 with [] => [] | t :: r => tok_of true t :: match r with [] => [] | _ :: _ => blank_tok true ++ seq r end end) ts) with (tok_seq true ts).
+        rewrite app_nil_r. rewrite E, El. cbn [map or_blank bare repeat app].
+        unfold item_lines. rewrite Em.
+        set (w := (length (m0 :: mr) + pad)%nat).
+        assert (Ew : spaces (Z.of_nat w) = repeat 32 w) by (unfold spaces; rewrite Nat2Z.id; reflexivity).
+        assert (Ep : spaces (Z.of_nat w - len (m0 :: mr) - 0) = repeat 32 pad).
+        { unfold spaces, len, w. f_equal. lia. }
+        unfold prefix_lines. rewrite Ew. destruct w as [|w'] eqn:Ew0; [unfold w in Ew0; cbn [length] in Ew0; lia|].
+        cbn [repeat prefix_from]. change (32 :: repeat 32 w') with (repeat 32 (S w')).
+        rewrite (prefix_from_false_embed _ (S w') rest (Nat.lt_0_succ _)).
+        rewrite Ep. cbn [spaces Z.to_nat repeat app map bare nonempty orb].
+        rewrite <- app_assoc. cbn [app]. reflexivity.
   Qed.
 End RT.
 
@@ -275,33 +222,34 @@ Proof.
 Qed.
 
 Theorem fragment_round_trip t :
-  wf_b t = true -> rt_ok t = true ->
+  wf_b t = true ->
   render_md (mkMopts false) None (fst (fst (parse_lines cfg_markdown (text_of (spell t))))) = concat (text_of (spell t)).
 Proof.
-  intros Hw Hr. rewrite fragment_document_markdown by exact Hw.
+  intros Hw. rewrite fragment_document_markdown by exact Hw.
   unfold render_md. cbn [is_block block_lines flat_map]. rewrite app_nil_r.
-  destruct (rt_all (depth t) t (le_n _) Hw Hr) as [E _]. unfold md_lines in E. rewrite E. apply render_lines_bare.
+  pose proof (rt_all (depth t) t (le_n _) Hw) as E. unfold RT, md_lines in E. rewrite E. apply render_lines_bare.
 Qed.
 
 (* ... and from ONE string, as MarkdownRenderer().render(Document(text)) *)
 Theorem fragment_round_trip_text t :
-  wf_b t = true -> rt_ok t = true -> one_string_ok t = true ->
+  wf_b t = true -> one_string_ok t = true ->
   render_md (mkMopts false) None (fst (fst (parse_document cfg_markdown (concat (text_of (spell t)))))) = concat (text_of (spell t)).
-Proof. intros Hw Hr H1. unfold parse_document. rewrite (doc_lines_spelled t H1). apply fragment_round_trip; assumption. Qed.
+Proof. intros Hw H1. unfold parse_document. rewrite (doc_lines_spelled t H1). apply fragment_round_trip; assumption. Qed.
 
-(* non-vacuity, and the two side conditions are needed: without them the statement is false *)
+(* non-vacuity; and the two inputs that used to come back changed (an empty fence gained a line, a code line of white
+   space lost its spaces) now come back exactly *)
 Example round_trip_instance :
   let fence := FFence 96 3 [SLine 2 120 $" = 1"; SBlank; SLine 0 35 $" not a heading"] in
-  let t1 := FItem (MBullet 45) 2 [FPara 97 $"b" []; FQuote [FPara 99 $"d" []; FItem (MOrdered $"12" 41) 1 [FPara 101 [] []; fence]; FPara 103 [] []]; FPara 102 [] []] in
+  let t1 := FItem (MBullet 45) 2 [FPara 97 $"b" [ $"second line" ]; FQuote [FHead 3 99 $"d"; FItem (MOrdered $"12" 41) 1 [FPara 101 [] []; fence]; FPara 103 [] []]; FPara 102 [] []] in
   let t2 := FQuote [FQuote [FPara 97 [] []]; fence; FPara 98 [] []; t1] in
-  wf_b t2 = true /\ rt_ok t2 = true.
+  wf_b t2 = true /\ depth t2 = 4%nat.
 Proof. vm_compute. split; reflexivity. Qed.
 
-Example round_trip_needs_rt_ok :
+Example round_trip_former_findings :
   let empty := FFence 126 3 [] in
   let ws := FFence 96 3 [SLine 1 12288 []] in
   (wf_b empty = true /\ concat (text_of (spell empty)) = $"~~~" ++ [10] ++ $"~~~" ++ [10] /\
-   render_md (mkMopts false) None (fst (fst (parse_lines cfg_markdown (text_of (spell empty))))) = $"~~~" ++ [10; 10] ++ $"~~~" ++ [10]) /\
+   render_md (mkMopts false) None (fst (fst (parse_lines cfg_markdown (text_of (spell empty))))) = $"~~~" ++ [10] ++ $"~~~" ++ [10]) /\
   (wf_b ws = true /\ concat (text_of (spell ws)) = $"```" ++ [10; 32; 12288; 10] ++ $"```" ++ [10] /\
-   render_md (mkMopts false) None (fst (fst (parse_lines cfg_markdown (text_of (spell ws))))) = $"```" ++ [10; 10] ++ $"```" ++ [10]).
+   render_md (mkMopts false) None (fst (fst (parse_lines cfg_markdown (text_of (spell ws))))) = $"```" ++ [10; 32; 12288; 10] ++ $"```" ++ [10]).
 Proof. vm_compute. repeat split; reflexivity. Qed.
